@@ -272,7 +272,19 @@ def compressible (ss : List (List Node)) : Bool :=
   match ss with
   | [] => false
   | [_] => false
-  | s0 :: rest => rest.all fun s => s.length = s0.length && (List.zipWith sameShape s0 s).all id
+  | s0 :: rest =>
+    (rest.all fun s => s.length = s0.length && (List.zipWith sameShape s0 s).all id) &&
+    -- the increment width field has 6 bits: a 64-bit column spanning the whole range cannot be listed
+    (columns (s0 :: rest)).all fun col =>
+      match col with
+      | [] => true
+      | n0 :: _ =>
+        if n0.flags.skipped ∨ n0.enc.nbits < 64 then true
+        else if !(n0.enc.type = .numeric || n0.enc.type = .codetable || n0.enc.type = .flagtable) then true
+        else
+          let missing := missingIvalue n0.enc.nbits
+          let present := (col.map value2bits).filter (· ≠ missing)
+          decide (listMax present 0 - listMin present 0 < 2^63 - 1)
 
 def BUFR_FLAG_OBSERVED : Nat := 128
 def BUFR_FLAG_COMPRESSED : Nat := 64
